@@ -406,7 +406,7 @@ def request_vs_request_k1(past0: bool, past1: bool, first: int, p1: int) -> bool
     return _pair(0, 0, past0, past1, first, [(p1, 1 - first)])
 
 
-@cond(q=100, t=2400, tiers=("thorough",), engine="coop", encoded=ENCODED, stubs=ASSUMPTIONS[:2], bound=_PB % ("request", "request", 2), replay=_pair_replay(0, 0), signature=_pair_sig(0, 0))
+@cond(q=100, t=6000, tiers=("thorough",), engine="coop", encoded=ENCODED, stubs=ASSUMPTIONS[:2], bound=_PB % ("request", "request", 2), replay=_pair_replay(0, 0), signature=_pair_sig(0, 0))
 def request_vs_request_k2(past0: bool, past1: bool, first: int, p1: int, p2: int) -> bool:
     """
     pre: 0 <= first <= 1 and 0 <= p1 < p2 <= 110
@@ -424,7 +424,7 @@ def closing_request_vs_request_k1(past0: bool, past1: bool, first: int, p1: int)
     return _pair(1, 0, past0, past1, first, [(p1, 1 - first)])
 
 
-@cond(q=100, t=2400, tiers=("thorough",), engine="coop", encoded=ENCODED, stubs=ASSUMPTIONS[:2], bound=_PB % ("request closing in-method", "request", 2), replay=_pair_replay(1, 0), signature=_pair_sig(1, 0))
+@cond(q=100, t=6000, tiers=("thorough",), engine="coop", encoded=ENCODED, stubs=ASSUMPTIONS[:2], bound=_PB % ("request closing in-method", "request", 2), replay=_pair_replay(1, 0), signature=_pair_sig(1, 0))
 def closing_request_vs_request_k2(past0: bool, past1: bool, first: int, p1: int, p2: int) -> bool:
     """
     pre: 0 <= first <= 1 and 0 <= p1 < p2 <= 110
@@ -442,7 +442,7 @@ def request_vs_delete_k1(past0: bool, past1: bool, first: int, p1: int) -> bool:
     return _pair(0, 2, past0, past1, first, [(p1, 1 - first)])
 
 
-@cond(q=100, t=2400, tiers=("thorough",), engine="coop", encoded=ENCODED, stubs=ASSUMPTIONS[:2], bound=_PB % ("request", "DELETE", 2), replay=_pair_replay(0, 2), signature=_pair_sig(0, 2))
+@cond(q=100, t=6000, tiers=("thorough",), engine="coop", encoded=ENCODED, stubs=ASSUMPTIONS[:2], bound=_PB % ("request", "DELETE", 2), replay=_pair_replay(0, 2), signature=_pair_sig(0, 2))
 def request_vs_delete_k2(past0: bool, past1: bool, first: int, p1: int, p2: int) -> bool:
     """
     pre: 0 <= first <= 1 and 0 <= p1 < p2 <= 110
@@ -460,7 +460,7 @@ def closing_request_vs_delete_k1(past0: bool, past1: bool, first: int, p1: int) 
     return _pair(1, 2, past0, past1, first, [(p1, 1 - first)])
 
 
-@cond(q=100, t=2400, tiers=("thorough",), engine="coop", encoded=ENCODED, stubs=ASSUMPTIONS[:2], bound=_PB % ("request closing in-method", "DELETE", 2), replay=_pair_replay(1, 2), signature=_pair_sig(1, 2))
+@cond(q=100, t=6000, tiers=("thorough",), engine="coop", encoded=ENCODED, stubs=ASSUMPTIONS[:2], bound=_PB % ("request closing in-method", "DELETE", 2), replay=_pair_replay(1, 2), signature=_pair_sig(1, 2))
 def closing_request_vs_delete_k2(past0: bool, past1: bool, first: int, p1: int, p2: int) -> bool:
     """
     pre: 0 <= first <= 1 and 0 <= p1 < p2 <= 110
@@ -478,7 +478,7 @@ def request_vs_reaper_k1(past0: bool, past1: bool, first: int, p1: int) -> bool:
     return _pair(0, 3, past0, past1, first, [(p1, 1 - first)])
 
 
-@cond(q=100, t=2400, tiers=("thorough",), engine="coop", encoded=ENCODED, stubs=ASSUMPTIONS[:2], bound=_PB % ("request", "reaper tick", 2), replay=_pair_replay(0, 3), signature=_pair_sig(0, 3))
+@cond(q=100, t=6000, tiers=("thorough",), engine="coop", encoded=ENCODED, stubs=ASSUMPTIONS[:2], bound=_PB % ("request", "reaper tick", 2), replay=_pair_replay(0, 3), signature=_pair_sig(0, 3))
 def request_vs_reaper_k2(past0: bool, past1: bool, first: int, p1: int, p2: int) -> bool:
     """
     pre: 0 <= first <= 1 and 0 <= p1 < p2 <= 110
@@ -496,7 +496,7 @@ def request_vs_shutdown_k1(past0: bool, past1: bool, first: int, p1: int) -> boo
     return _pair(0, 4, past0, past1, first, [(p1, 1 - first)])
 
 
-@cond(q=100, t=2400, tiers=("thorough",), engine="coop", encoded=ENCODED, stubs=ASSUMPTIONS[:2], bound=_PB % ("request", "shutdown", 2), replay=_pair_replay(0, 4), signature=_pair_sig(0, 4))
+@cond(q=100, t=6000, tiers=("thorough",), engine="coop", encoded=ENCODED, stubs=ASSUMPTIONS[:2], bound=_PB % ("request", "shutdown", 2), replay=_pair_replay(0, 4), signature=_pair_sig(0, 4))
 def request_vs_shutdown_k2(past0: bool, past1: bool, first: int, p1: int, p2: int) -> bool:
     """
     pre: 0 <= first <= 1 and 0 <= p1 < p2 <= 110
@@ -514,7 +514,7 @@ def delete_vs_reaper_k1(past0: bool, past1: bool, first: int, p1: int) -> bool:
     return _pair(2, 3, past0, past1, first, [(p1, 1 - first)])
 
 
-@cond(q=100, t=2400, tiers=("thorough",), engine="coop", encoded=ENCODED, stubs=ASSUMPTIONS[:2], bound=_PB % ("DELETE", "reaper tick", 2), replay=_pair_replay(2, 3), signature=_pair_sig(2, 3))
+@cond(q=100, t=6000, tiers=("thorough",), engine="coop", encoded=ENCODED, stubs=ASSUMPTIONS[:2], bound=_PB % ("DELETE", "reaper tick", 2), replay=_pair_replay(2, 3), signature=_pair_sig(2, 3))
 def delete_vs_reaper_k2(past0: bool, past1: bool, first: int, p1: int, p2: int) -> bool:
     """
     pre: 0 <= first <= 1 and 0 <= p1 < p2 <= 110
@@ -532,7 +532,7 @@ def delete_vs_delete_k1(past0: bool, past1: bool, first: int, p1: int) -> bool:
     return _pair(2, 2, past0, past1, first, [(p1, 1 - first)])
 
 
-@cond(q=100, t=2400, tiers=("thorough",), engine="coop", encoded=ENCODED, stubs=ASSUMPTIONS[:2], bound=_PB % ("DELETE", "DELETE", 2), replay=_pair_replay(2, 2), signature=_pair_sig(2, 2))
+@cond(q=100, t=6000, tiers=("thorough",), engine="coop", encoded=ENCODED, stubs=ASSUMPTIONS[:2], bound=_PB % ("DELETE", "DELETE", 2), replay=_pair_replay(2, 2), signature=_pair_sig(2, 2))
 def delete_vs_delete_k2(past0: bool, past1: bool, first: int, p1: int, p2: int) -> bool:
     """
     pre: 0 <= first <= 1 and 0 <= p1 < p2 <= 110
@@ -550,7 +550,7 @@ def closing_request_vs_closing_request_k1(past0: bool, past1: bool, first: int, 
     return _pair(1, 1, past0, past1, first, [(p1, 1 - first)])
 
 
-@cond(q=100, t=2400, tiers=("thorough",), engine="coop", encoded=ENCODED, stubs=ASSUMPTIONS[:2], bound=_PB % ("request closing in-method", "request closing in-method", 2), replay=_pair_replay(1, 1), signature=_pair_sig(1, 1))
+@cond(q=100, t=6000, tiers=("thorough",), engine="coop", encoded=ENCODED, stubs=ASSUMPTIONS[:2], bound=_PB % ("request closing in-method", "request closing in-method", 2), replay=_pair_replay(1, 1), signature=_pair_sig(1, 1))
 def closing_request_vs_closing_request_k2(past0: bool, past1: bool, first: int, p1: int, p2: int) -> bool:
     """
     pre: 0 <= first <= 1 and 0 <= p1 < p2 <= 110
@@ -568,7 +568,7 @@ def closing_request_vs_reaper_k1(past0: bool, past1: bool, first: int, p1: int) 
     return _pair(1, 3, past0, past1, first, [(p1, 1 - first)])
 
 
-@cond(q=100, t=2400, tiers=("thorough",), engine="coop", encoded=ENCODED, stubs=ASSUMPTIONS[:2], bound=_PB % ("request closing in-method", "reaper tick", 2), replay=_pair_replay(1, 3), signature=_pair_sig(1, 3))
+@cond(q=100, t=6000, tiers=("thorough",), engine="coop", encoded=ENCODED, stubs=ASSUMPTIONS[:2], bound=_PB % ("request closing in-method", "reaper tick", 2), replay=_pair_replay(1, 3), signature=_pair_sig(1, 3))
 def closing_request_vs_reaper_k2(past0: bool, past1: bool, first: int, p1: int, p2: int) -> bool:
     """
     pre: 0 <= first <= 1 and 0 <= p1 < p2 <= 110
@@ -586,7 +586,7 @@ def closing_request_vs_shutdown_k1(past0: bool, past1: bool, first: int, p1: int
     return _pair(1, 4, past0, past1, first, [(p1, 1 - first)])
 
 
-@cond(q=100, t=2400, tiers=("thorough",), engine="coop", encoded=ENCODED, stubs=ASSUMPTIONS[:2], bound=_PB % ("request closing in-method", "shutdown", 2), replay=_pair_replay(1, 4), signature=_pair_sig(1, 4))
+@cond(q=100, t=6000, tiers=("thorough",), engine="coop", encoded=ENCODED, stubs=ASSUMPTIONS[:2], bound=_PB % ("request closing in-method", "shutdown", 2), replay=_pair_replay(1, 4), signature=_pair_sig(1, 4))
 def closing_request_vs_shutdown_k2(past0: bool, past1: bool, first: int, p1: int, p2: int) -> bool:
     """
     pre: 0 <= first <= 1 and 0 <= p1 < p2 <= 110
@@ -604,7 +604,7 @@ def delete_vs_shutdown_k1(past0: bool, past1: bool, first: int, p1: int) -> bool
     return _pair(2, 4, past0, past1, first, [(p1, 1 - first)])
 
 
-@cond(q=100, t=2400, tiers=("thorough",), engine="coop", encoded=ENCODED, stubs=ASSUMPTIONS[:2], bound=_PB % ("DELETE", "shutdown", 2), replay=_pair_replay(2, 4), signature=_pair_sig(2, 4))
+@cond(q=100, t=6000, tiers=("thorough",), engine="coop", encoded=ENCODED, stubs=ASSUMPTIONS[:2], bound=_PB % ("DELETE", "shutdown", 2), replay=_pair_replay(2, 4), signature=_pair_sig(2, 4))
 def delete_vs_shutdown_k2(past0: bool, past1: bool, first: int, p1: int, p2: int) -> bool:
     """
     pre: 0 <= first <= 1 and 0 <= p1 < p2 <= 110
@@ -622,7 +622,7 @@ def reaper_vs_shutdown_k1(past0: bool, past1: bool, first: int, p1: int) -> bool
     return _pair(3, 4, past0, past1, first, [(p1, 1 - first)])
 
 
-@cond(q=100, t=2400, tiers=("thorough",), engine="coop", encoded=ENCODED, stubs=ASSUMPTIONS[:2], bound=_PB % ("reaper tick", "shutdown", 2), replay=_pair_replay(3, 4), signature=_pair_sig(3, 4))
+@cond(q=100, t=6000, tiers=("thorough",), engine="coop", encoded=ENCODED, stubs=ASSUMPTIONS[:2], bound=_PB % ("reaper tick", "shutdown", 2), replay=_pair_replay(3, 4), signature=_pair_sig(3, 4))
 def reaper_vs_shutdown_k2(past0: bool, past1: bool, first: int, p1: int, p2: int) -> bool:
     """
     pre: 0 <= first <= 1 and 0 <= p1 < p2 <= 110
@@ -685,7 +685,7 @@ def _triple_sig(roles: list[int]):  # type: ignore[no-untyped-def]
 _TB = "threads: %s on one live session; symbolic start thread + %d preemption(s) to any thread at any statement; each thread's clock before/after the TTL"
 
 
-@cond(q=100, t=2400, tiers=("thorough",), engine="coop", encoded=ENCODED, stubs=ASSUMPTIONS[:2], bound=_TB % ("request + request closing in-method + DELETE", 1), replay=_triple_replay([0, 1, 2]), signature=_triple_sig([0, 1, 2]))
+@cond(q=100, t=6000, tiers=("thorough",), engine="coop", encoded=ENCODED, stubs=ASSUMPTIONS[:2], bound=_TB % ("request + request closing in-method + DELETE", 1), replay=_triple_replay([0, 1, 2]), signature=_triple_sig([0, 1, 2]))
 def request_closing_request_delete_k1(past0: bool, past1: bool, past2: bool, first: int, p1: int, t1: int) -> bool:
     """
     pre: 0 <= first <= 2 and 0 <= t1 <= 2 and 0 <= p1 <= 160
@@ -694,7 +694,7 @@ def request_closing_request_delete_k1(past0: bool, past1: bool, past2: bool, fir
     return _triple([0, 1, 2], past0, past1, past2, first, [(p1, t1)])
 
 
-@cond(q=100, t=2400, tiers=("thorough",), engine="coop", encoded=ENCODED, stubs=ASSUMPTIONS[:2], bound=_TB % ("request + DELETE + reaper tick", 1), replay=_triple_replay([0, 2, 3]), signature=_triple_sig([0, 2, 3]))
+@cond(q=100, t=6000, tiers=("thorough",), engine="coop", encoded=ENCODED, stubs=ASSUMPTIONS[:2], bound=_TB % ("request + DELETE + reaper tick", 1), replay=_triple_replay([0, 2, 3]), signature=_triple_sig([0, 2, 3]))
 def request_delete_reaper_k1(past0: bool, past1: bool, past2: bool, first: int, p1: int, t1: int) -> bool:
     """
     pre: 0 <= first <= 2 and 0 <= t1 <= 2 and 0 <= p1 <= 160
@@ -703,7 +703,7 @@ def request_delete_reaper_k1(past0: bool, past1: bool, past2: bool, first: int, 
     return _triple([0, 2, 3], past0, past1, past2, first, [(p1, t1)])
 
 
-@cond(q=100, t=3000, tiers=("thorough",), engine="coop", encoded=ENCODED, stubs=ASSUMPTIONS[:2], bound=_TB % ("request + request + shutdown", 2), replay=_triple_replay([0, 0, 4]), signature=_triple_sig([0, 0, 4]))
+@cond(q=100, t=7500, tiers=("thorough",), engine="coop", encoded=ENCODED, stubs=ASSUMPTIONS[:2], bound=_TB % ("request + request + shutdown", 2), replay=_triple_replay([0, 0, 4]), signature=_triple_sig([0, 0, 4]))
 def request_request_shutdown_k2(past0: bool, past1: bool, past2: bool, first: int, p1: int, t1: int, p2: int, t2: int) -> bool:
     """
     pre: 0 <= first <= 2 and 0 <= t1 <= 2 and 0 <= t2 <= 2 and 0 <= p1 < p2 <= 120 and not past0 and not past2
